@@ -50,6 +50,7 @@ def c04(res, st, std_coq):
     q = res.tier == "quick"
     cases = gens.parser_cases(rnd, 4000 if q else 80000, 1500 if q else 30000, 300 if q else 6000)
     cases += gens.sentence_cases(rnd, 3000 if q else 60000)
+    cases += gens.probe_cases()
     cases += [("ParseStatement", s) for s in gens.regression("C04")] + [("ParseExpr", s) for s in gens.regression("C04")]
     g, mism = sql_correspondence(res, cases)
     r = tree_correspondence(res, cases, [("wt", ["parse-dump"], ["tree-wt"])])
@@ -90,6 +91,7 @@ def c01(res, st, std_coq):
     q = res.tier == "quick"
     cases = gens.parser_cases(rnd, 3000 if q else 60000, 300 if q else 6000, 400 if q else 8000)
     cases += gens.sentence_cases(rnd, 3000 if q else 60000)
+    cases += gens.probe_cases()
     cases += [("ParseStatement", s) for s in gens.regression(res.pid)] + [("ParseExpr", s) for s in gens.regression(res.pid)]
     sql_correspondence(res, cases)
     if res.pid == "C01":
@@ -345,6 +347,7 @@ def fit_entries(s):
 def valid_cases(rnd, q, n_sent):
     cases = gens.parser_cases(rnd, 1500 if q else 30000, 0, 400 if q else 8000)
     cases += gens.sentence_cases(rnd, n_sent)
+    cases += gens.probe_cases()
     return cases
 
 
